@@ -67,3 +67,39 @@ func (m *Mutex) Held() bool { return m.held }
 
 // Locker is sync.Locker.
 type Locker = sync.Locker
+
+// WaitGroup is a drop-in replacement for sync.WaitGroup.  For a managed thread Wait is a yield point that
+// is enabled when the counter is zero; unmanaged goroutines wait on the embedded sync.WaitGroup.
+type WaitGroup struct {
+	mu   sync.Mutex
+	n    int
+	real sync.WaitGroup
+}
+
+func (w *WaitGroup) Add(delta int) {
+	w.mu.Lock()
+	w.n += delta
+	neg := w.n < 0
+	w.mu.Unlock()
+	if neg {
+		panic("sync: negative WaitGroup counter")
+	}
+	w.real.Add(delta)
+}
+
+func (w *WaitGroup) Done() { w.Add(-1) }
+
+func (w *WaitGroup) Wait() {
+	if t := vrt.Cur(); t != nil {
+		t.Yield(vrt.Op{Kind: "wait", Tag: "waitgroup", Obj: w, Enabled: func() bool { return w.Count() == 0 }})
+		return
+	}
+	w.real.Wait()
+}
+
+// Count returns the counter (scheduler bookkeeping and drift measurements).
+func (w *WaitGroup) Count() int {
+	w.mu.Lock()
+	defer w.mu.Unlock()
+	return w.n
+}
